@@ -108,6 +108,28 @@ int main(int argc, char** argv) {
         }
         delete_TLweSample(acc); delete_TLweSample(acc2); delete_TLweSample(res); delete_TorusPolynomial(v); delete_LweSample(u); delete_LweSample(r);
     }
+    // ---- the TGSW-level entry points under other layouts (l = 1, l*Bgbit = 32, Bgbit = 2, k = 2, ...): inputs, the TGSW sample and the parameters stay untouched ----
+    { int lay[8][3] = {{1, 8, 1}, {1, 16, 1}, {1, 10, 2}, {2, 16, 1}, {16, 2, 1}, {4, 8, 2}, {3, 7, 1}, {2, 10, 2}};
+      static char names[8][4][48];
+      for (int q = 0; q < 8; q++) { int l = lay[q][0], bgb = lay[q][1], k = lay[q][2]; const int N2 = 1024;
+        TLweParams* tp2 = new_TLweParams(N2, k, 0., 1.); TGswParams* gp2 = new_TGswParams(l, bgb, tp2);
+        TGswSample* g = new_TGswSample(gp2); TGswSampleFFT* gf = new_TGswSampleFFT(gp2);
+        for (int r = 0; r < gp2->kpl; r++) { for (int cc = 0; cc <= k; cc++) for (int j = 0; j < N2; j++) g->all_sample[r].a[cc].coefsT[j] = (Torus32)rng.u32(); g->all_sample[r].current_variance = 0; }
+        tGswToFFTConvert(gf, g, gp2);
+        TLweSample* x = new_TLweSample(tp2); TLweSample* x2 = new_TLweSample(tp2); TLweSample* res = new_TLweSample(tp2); IntPolynomial* dec = new_IntPolynomial_array(gp2->kpl, N2);
+        for (int cc = 0; cc <= k; cc++) for (int j = 0; j < N2; j++) x->a[cc].coefsT[j] = (j % 5 == 0) ? (Torus32)(0x80000000u >> (j % 31)) : (Torus32)rng.u32(); x->current_variance = 0;
+        uint64_t hp = hTGswParams(gp2, 0x33);
+        for (int f = 0; f < 4; f++) {
+            snprintf(names[q][f], sizeof names[q][f], "%s/l%d-b%d-k%d", f == 0 ? "externProduct" : f == 1 ? "tLweDecompH" : f == 2 ? "polyDecompH" : "FFTExternMulToTLwe", l, bgb, k);
+            tLweCopy(x2, x, tp2);
+            Ev e; e.op = names[q][f]; e.alias = f == 3 ? "inplace" : "none"; e.ins = {hTLwe(x2, tp2)}; e.key = f == 3 ? hTGswFFT(gf, gp2) : hTGsw(g, gp2); e.par = hp; if (f == 3) e.al.push_back(0);
+            std::string r0 = rng_state();
+            if (f == 0) tGswExternProduct(res, g, x2, gp2); else if (f == 1) tGswTLweDecompH(dec, x2, gp2); else if (f == 2) tGswTorus32PolynomialDecompH(dec, &x2->a[k], gp2); else tGswFFTExternMulToTLwe(x2, gf, gp2);
+            e.rng = r0 == rng_state(); e.insa = {hTLwe(x2, tp2)}; e.keya = f == 3 ? hTGswFFT(gf, gp2) : hTGsw(g, gp2); e.para = hTGswParams(gp2, 0x33);
+            uint64_t ho = 0x99; if (f == 0) ho = hTLwe(res, tp2); else if (f == 3) ho = hTLwe(x2, tp2); else for (int r = 0; r < (f == 1 ? gp2->kpl : l); r++) ho = hmix(ho, dec[r].coefs, 4 * (size_t)N2);
+            e.out = ho; e.emit();
+        }
+        delete_IntPolynomial_array(gp2->kpl, dec); delete_TLweSample(x); delete_TLweSample(x2); delete_TLweSample(res); delete_TGswSampleFFT(gf); delete_TGswSample(g); delete_TGswParams(gp2); delete_TLweParams(tp2); } }
     delete_gate_bootstrapping_ciphertext_array(8, c); delete_gate_bootstrapping_secret_keyset(sk); delete_gate_bootstrapping_parameters(p);
     fflush(stdout);
     return 0;
